@@ -65,10 +65,13 @@ def pre_generate(tier):
     for name in sorted(os.listdir(gen_dir)):
         if name.endswith(".py") and name.startswith("gen_"):
             import importlib.util
+            if gen_dir not in sys.path:
+                sys.path.insert(0, gen_dir)
             spec = importlib.util.spec_from_file_location(name[:-3], os.path.join(gen_dir, name))
             mod = importlib.util.module_from_spec(spec)
             spec.loader.exec_module(mod)
-            mod.generate(common.REPO, common.OVERLAY, tier)
+            if hasattr(mod, "generate"):
+                mod.generate(common.REPO, common.OVERLAY, tier)
 
 
 def run_engine_k(prop, tier, seed, only=None):
